@@ -3,7 +3,7 @@ import numpy as np
 from hypothesis import strategies as st
 from vf import gens, oracles as O
 from vf.props import c01
-from vf.runner import hyp_run, run_cases, guard, fail, exc_failure
+from vf.runner import hyp_run, run_cases, guard, fail, exc_failure, snapshot, written
 
 THOROUGH_SCALE = 8      # multiplies every generated-case budget of the thorough tier
 RULE = ("1-50 UBIs (random cells/orientations of a common cell family, plus near-twins = another grain x a lattice "
@@ -130,6 +130,7 @@ def check(case, rec=None):
     fails = []
     ref = dense_reference(ubis, [gv] * ng, tol, 2.0)
     E, exp, expd, tie, amb, Em = ref
+    snap = snapshot(gv=gv, ubis=np.array(ubis))
     perm_rng = np.random.RandomState((case["seed"] + 1) % (2 ** 32))
     results = {}
     try:
@@ -219,6 +220,8 @@ def check(case, rec=None):
                 rec.exclude("assigntorings refused the peak list (no competition after ring assignment run)")
     finally:
         cImageD11.cimaged11_omp_set_num_threads(2)
+    for nm in written(snap, gv=gv, ubis=np.array(ubis)):
+        fails.append(fail("inputs", "the assignment routines modified the %s they were given" % nm, entry="inputs"))
     if rec is not None:
         comp = int(((E < tol * tol).sum(axis=0) >= 2).sum())
         nt = comp > 0 or (n > 4096 and max(case["threads"]) > 1)
